@@ -1776,7 +1776,7 @@ class Sim:
             if type(a) is not type(b) and not (isinstance(a, int) and isinstance(b, int)):
                 return ("value", UNK) if not (known(a) and known(b)) else None
             if known(a) and known(b) and not isinstance(a, (FnItem, Closure)) and _comparable(a) and _comparable(b):
-                r = a == b
+                r = _ieee_eq(a, b)
                 return ("value", int(r if c.get("method") == "eq" else not r))
             return ("value", UNK)
         if has("std::convert::TryFrom::try_from", "std::convert::TryInto::try_into"):
@@ -1861,8 +1861,20 @@ class Sim:
         return None
 
 
+def _ieee_eq(a, b):
+    """Structural equality as a derived / std PartialEq computes it: floats compare by IEEE equality."""
+    if isinstance(a, Flt) and isinstance(b, Flt):
+        return a.v == b.v
+    if isinstance(a, Adt) and isinstance(b, Adt):
+        return a.adt == b.adt and a.variant == b.variant and len(a.fields) == len(b.fields) and \
+            all(_ieee_eq(x, y) for x, y in zip(a.fields, b.fields))
+    if isinstance(a, Tup) and isinstance(b, Tup):
+        return len(a.fields) == len(b.fields) and all(_ieee_eq(x, y) for x, y in zip(a.fields, b.fields))
+    return a == b
+
+
 def _comparable(v):
-    if isinstance(v, (int, Bytes)):
+    if isinstance(v, (int, Bytes, Flt)):
         return True
     if isinstance(v, (Adt, Tup)):
         return all(_comparable(x) for x in v.fields)
